@@ -255,7 +255,7 @@ def gen_good_data(rng):
         return {"t": "frame", "names": names, "index": tuples, "cols": {}}          # empty indexed frame
     if r < 0.52:
         names, tuples = gen_index(rng)
-        return {"t": "series", "names": names, "index": tuples, "name": rng.choice(["value", None, "x"]),
+        return {"t": "series", "names": names, "index": tuples, "name": rng.choice(["value", None, "x", "count"]),
                 "values": [rng.choice([0.0, 1.5, -2.0]) for _ in tuples]}
     if r < 0.57:
         return {"t": "tuple", "v": [gen_json(rng, 2) for _ in range(rng.randint(0, 3))]}
@@ -306,7 +306,8 @@ def gen_group_keys(rng):
     return [f"metadata.{m}" for m in rng.sample(["versions", "locations", "notes", "source"], rng.randint(2, 3))]
 
 
-HANDLE_LEVELS = {"age": [0, 1, 5, 10, 95], "year": [1990, 2000, 2019, 2020], "draw_id": [0, 1, 2, 999]}
+HANDLE_LEVELS = {"age": [0, 1, 5, 10, 95], "year": [1990, 2000, 2019, 2020], "draw_id": [0, 1, 2, 999],
+                 "age_start": [0.0, 0.5, 1.0, 5.0, -2.5]}          # a FLOAT level, as real artifacts have them
 
 
 def gen_hterm(rng, depth=0):
@@ -315,16 +316,22 @@ def gen_hterm(rng, depth=0):
     r = rng.random()
     if r < 0.55:
         col = rng.choice(list(HANDLE_LEVELS))
+        if col == "age_start" and rng.random() < 0.5:      # strict / non-strict comparison of a float column with 0 (F-AG)
+            return ["atom", col, rng.choice(["<", ">", "<", ">", "<=", ">=", "==", "!="]), rng.choice([0, 0.0])]
         return ["atom", col, rng.choice(["<", "<=", "==", ">=", ">", "!="]), rng.choice(HANDLE_LEVELS[col])]
     if r < 0.75:
         return ["atom", rng.choice(["sex", "location"]), rng.choice(["==", "!="]), rng.choice(["Female", "Male", "Kenya", "x y"])]
     if r < 0.88:
-        return ["atom", rng.choice(["value", "count", "draw_0"]), ">", 0]          # value columns: not queryable
+        # value columns: not queryable in a DataFrame; a Series' own column IS - also against 0, strictly (F-AG)
+        return ["atom", rng.choice(["value", "count", "draw_0", "x"]), rng.choice([">", "<", "<=", "==", ">="]), rng.choice([0, 0, 1, 0.5])]
     return ["atom", rng.choice(["parameter", "absent_col"]), "==", 1]               # absent
 
 
 def gen_filterable_frame(rng):
-    names = rng.sample(["age", "year", "draw_id", "sex"], rng.choice([2, 2, 3]))
+    names = rng.sample(["age", "year", "draw_id", "sex", "age_start", "age_start"], rng.choice([2, 2, 3]))
+    names = list(dict.fromkeys(names))
+    if len(names) < 2:
+        names.append("year")
     pools = dict(HANDLE_LEVELS, sex=["Female", "Male"])
     seen, tuples = set(), []
     for _ in range(24):
@@ -335,6 +342,9 @@ def gen_filterable_frame(rng):
         if len(tuples) == rng.randint(3, 6):
             break
     n = len(tuples)
+    if rng.random() < 0.2:               # a Series of any name (or none): its own column can be queried, a draw filter leaves it alone (F-AH)
+        return {"t": "series", "names": names, "index": tuples, "name": rng.choice(["value", None, "x", "count", "draw_0"]),
+                "values": [rng.choice([0.0, 0.5, 2.0, -1.25]) for _ in range(n)]}
     if rng.random() < 0.12:
         return {"t": "frame", "names": names, "index": tuples, "cols": {}}              # empty indexed table
     cols = {c: [rng.choice([0.0, 0.5, 2.0, -1.25]) for _ in range(n)] for c in rng.sample(["draw_0", "draw_1", "draw_2", "value"], rng.randint(1, 4))}
@@ -398,9 +408,14 @@ def apply_filter(value, spec):
     levels = [str(n) for n in value.index.names]
     is_empty_table = isinstance(value, pd.DataFrame) and value.empty
     queryable = levels if (len(levels) > 1 or is_empty_table) else []
+    own = []
+    if isinstance(value, pd.Series) and value.name is not None:
+        own = [str(value.name)]                   # a Series is stored as a one-column table: its own column can be queried
+        queryable = queryable + own
     valid = [t for t in spec["terms"] if set(hterm_cols(t)) <= set(queryable)]
     tuples = [t if isinstance(t, tuple) else (t,) for t in value.index.tolist()]
-    keep = [all(hterm_eval(t, dict(zip(levels, tup))) for t in valid) for tup in tuples]
+    cells = value.tolist() if own else [None] * len(tuples)
+    keep = [all(hterm_eval(t, dict(zip(levels + own, tup + ((c,) if own else ())))) for t in valid) for tup, c in zip(tuples, cells)]
     out = value[keep] if not all(keep) else value
     d = spec.get("draw")
     if d and isinstance(out, pd.DataFrame) and not is_empty_table:
@@ -429,8 +444,6 @@ def gen_ops(rng, tier_max):
         for o in ops:
             if "data" in o and kind_of(o["data"]) in "FJ" and rng.random() < 0.45:
                 o["data"] = gen_filterable_frame(rng)  # tables the filters can bite on
-            if "data" in o and o["data"]["t"] == "series" and has_draw:
-                o["data"]["name"] = "value"            # an unnamed Series cannot be read back through a draw filter (see report)
         # more re-openings, so that handles alternate
         extra = []
         for o in ops:
@@ -446,11 +459,11 @@ def gen_ops(rng, tier_max):
             # a filter made to BITE on a table of this very case, and the operations through which a filtered view could
             # leak into the file: repeated loads (cache), clear_cache, replace with good data, replace refused inside put
             fr = gen_filterable_frame(rng)
-            while not fr["cols"]:
+            while not fr.get("cols"):
                 fr = gen_filterable_frame(rng)
             ints = [n for n in fr["names"] if n != "sex"]
             lvl = rng.choice(ints)
-            vals = sorted({t[fr["names"].index(lvl)] for t in fr["index"]})
+            vals = sorted({t[fr["names"].index(lvl)] for t in fr["index"]} | ({0} if lvl == "age_start" else set()))
             draws = [int(c.split("_")[1]) for c in fr["cols"] if c.startswith("draw_")]
             bite = {"terms": [["atom", lvl, rng.choice([">", "==", "!=", "<="]), rng.choice(vals)]] if rng.random() < 0.75 else [],
                     "draw": None, "pos": 0}
@@ -608,6 +621,18 @@ REPAIRED_CASES = [
              {"op": "load", "key": "pop.structure"}, {"op": "reopen", "f": 2}, {"op": "load", "key": "pop.structure"},
              {"op": "reopen", "f": 3}, {"op": "load", "key": "pop.structure"}, {"op": "reopen", "f": 0}, {"op": "load", "key": "pop.structure"}],
      "obs_seed": 13},
+    # ddb6f9f8 (F-AG): a float column compared strictly with 0; 7b59923b (F-AH): Series of any name under a draw filter
+    {"filters": [{"terms": [["atom", "age_start", ">", 0]], "draw": None, "pos": 0}, {"terms": [["atom", "age_start", "<", 0]], "draw": None, "pos": 0},
+                 {"terms": [["atom", "x", ">", 0]], "draw": {"form": "==", "draws": [0]}, "pos": 0}],
+     "ops": [{"op": "write", "key": "cause.flu.incidence", "data": {"t": "frame", "names": ["age_start", "year"],
+                                                                  "index": [[0.0, 2000], [5.0, 2000], [-2.5, 2019]], "cols": {"value": [1.5, 2.5, 0.5]}}},
+             {"op": "write", "key": "cause.flu.prevalence", "data": {"t": "series", "names": ["age_start", "year"], "name": "x",
+                                                                   "index": [[0.0, 2000], [5.0, 2000]], "values": [0.0, 2.0]}},
+             {"op": "write", "key": "cause.flu.structure", "data": {"t": "series", "names": ["draw_id"], "name": None, "index": [[2], [3]], "values": [1.5, -1.25]}},
+             {"op": "reopen", "f": 1}, {"op": "load", "key": "cause.flu.incidence"}, {"op": "load", "key": "cause.flu.prevalence"},
+             {"op": "reopen", "f": 2}, {"op": "load", "key": "cause.flu.incidence"}, {"op": "load", "key": "cause.flu.structure"},
+             {"op": "reopen", "f": 3}, {"op": "load", "key": "cause.flu.prevalence"}, {"op": "load", "key": "cause.flu.structure"},
+             {"op": "load", "key": "cause.flu.incidence"}], "obs_seed": 14},
     # d4f70230: an empty group /t/n left behind must not block the JSON write of t.n
     {"ops": [{"op": "write", "key": "t.n.m", "data": {"t": "json", "v": [1]}}, {"op": "remove", "key": "t.n.m"},
              {"op": "write", "key": "t.n", "data": {"t": "json", "v": [2]}}, {"op": "load", "key": "t.n"}], "obs_seed": 6},
@@ -892,8 +917,9 @@ def gen_term(rng, levels, depth=0):
 
 def gen_filt(rng):
     nlev = rng.choice([1, 2, 2, 3])
-    levels = rng.sample(["age", "year", "sex", "bin"], nlev)
-    pools = {"age": [0, 1, 2, 3, 5], "year": [2000, 2005, 2010], "sex": ["Female", "Male"], "bin": [0, 1, 2, 3]}
+    levels = rng.sample(["age", "year", "sex", "bin", "age_start"], nlev)
+    pools = {"age": [0, 1, 2, 3, 5], "year": [2000, 2005, 2010], "sex": ["Female", "Male"], "bin": [0, 1, 2, 3],
+             "age_start": [0.0, 1.0, 2.0, 5.0, -1.0]}           # a float level (integral values: the model's cells are integers)
     n = rng.randint(3, 12)
     seen, rows = set(), []
     for _ in range(4 * n):
